@@ -280,24 +280,22 @@ def evOk (c : Cfg) (par : Par) (m : Nat) : Ev → Bool
   | .use _ => true
   | .missing => true
 
-def bodiesOk (c : Cfg) (par : Par) : Nat → List (List Ev) → Bool
-  | _, [] => true
-  | m, evs :: rest => evs.all (evOk c par m) && bodiesOk c par (m+1) rest
+/-- every event of every body is well-formed (indices from `List.range`, so that the kernel sees literals) -/
+def bodiesOk (c : Cfg) (par : Par) : Bool :=
+  (List.range c.tbl.length).all (fun m => (c.tbl.getD m []).all (evOk c par m))
 
-theorem bodiesOk_spec {c : Cfg} {par : Par} : ∀ {m0 : Nat} {tbl : List (List Ev)}, bodiesOk c par m0 tbl = true →
-    ∀ i, ∀ ev ∈ tbl.getD i [], evOk c par (m0 + i) ev = true
-  | _, [], _, i, ev, hev => by simp at hev
-  | m0, evs :: rest, h, i, ev, hev => by
-    simp only [bodiesOk, Bool.and_eq_true, List.all_eq_true] at h
-    cases i with
-    | zero => exact h.1 ev (by simpa using hev)
-    | succ i =>
-      have := bodiesOk_spec h.2 i ev (by simpa using hev)
-      rwa [show m0 + 1 + i = m0 + (i + 1) by omega] at this
+theorem bodiesOk_spec {c : Cfg} {par : Par} (h : bodiesOk c par = true) :
+    ∀ m, ∀ ev ∈ c.tbl.getD m [], evOk c par m ev = true := by
+  intro m ev hev
+  simp only [bodiesOk, List.all_eq_true, List.mem_range] at h
+  by_cases hm : m < c.tbl.length
+  · exact h m hm ev hev
+  · have e : c.tbl.getD m [] = [] := by simp [List.getD, Nat.le_of_not_lt hm]
+    rw [e] at hev; simp at hev
 
 /-- the decidable side condition of the history theorem -/
 def staticOk (c : Cfg) (par : Par) (chains : List (List Nat)) : Bool :=
-  chains.all (pathOk par none) && bodiesOk c par 0 c.tbl && uniqKids par c.short
+  chains.all (pathOk par none) && bodiesOk c par && uniqKids par c.short
     && c.short.all (fun s => Nat.blt s c.stride) && Nat.blt 0 c.stride
 
 structure Static (c : Cfg) (par : Par) (chains : List (List Nat)) : Prop where
@@ -315,9 +313,7 @@ theorem static_of_ok {c : Cfg} {par : Par} {chains : List (List Nat)} (h : stati
   simp only [staticOk, Bool.and_eq_true, List.all_eq_true] at h
   obtain ⟨⟨⟨⟨h1, h2⟩, h3⟩, h4⟩, h5⟩ := h
   refine ⟨h1, ?_, uniqKids_spec h3, ?_⟩
-  · intro m ev hev
-    have := bodiesOk_spec h2 m ev hev
-    rwa [Nat.zero_add] at this
+  · exact bodiesOk_spec h2
   · intro x
     rw [blt_iff] at h5
     by_cases hx : x < c.short.length
